@@ -214,9 +214,16 @@ def histories(tier, max_ops=None, batches=True, aborts=False, near_weight=2, sfx
             end = st.just(-1)
         batch = st.tuples(st.just("batch"), inner, end)
         parts = parts + [batch] * 2
-    return st.lists(st.one_of(parts), min_size=min_ops, max_size=max_ops).map(
+    normal = st.lists(st.one_of(parts), min_size=min_ops, max_size=max_ops).map(
         lambda fr: _flatten(fr, max_ops + 16)
     )
+    if tier == "quick" or max_ops < 60:
+        return normal
+    # thorough only: a class of long histories (hundreds of keys, deep tries)
+    large = st.lists(st.one_of(parts), min_size=max_ops, max_size=max_ops * 3).map(
+        lambda fr: _flatten(fr, max_ops * 3 + 16)
+    )
+    return st.one_of([normal] * 9 + [large])
 
 
 def lookup_keys(model, touched=None, extra=()):
